@@ -171,7 +171,7 @@ impl Scenario for Roundtrip {
         ctx.absorb(&io_f);
         ctx.absorb(&io_d);
         let mut m = Model::new(ModelCfg { enforce_unrepresentable: true, bzip2_level0_err: true });
-        let lookup = |si: usize, idx: usize| src_infos.get(si).and_then(|v| v.get(idx)).cloned();
+        let lookup = |si: usize, idx: usize, how: u8| resolve_src(&src_infos, si, idx, how);
         if let Err(mmis) = run_model(&mut m, &c.ops, &out_f.steps, &out_f.final_res, &lookup) {
             let class = self.to_prop(&mmis.class, &prop);
             // a wrongly accepted unrepresentable input is a C02 matter; a failing valid call is both
@@ -199,6 +199,15 @@ impl Scenario for Roundtrip {
                 ctx.probe("other_property:C01");
             }
         }
+        // bytes surviving after the new end record (an append that made the archive shorter; the sink
+        // cannot be truncated): known finding D12, C13's business
+        let stale_tail = m.appended && out_f.end_pos.map(|e| e < img_f_len).unwrap_or(false);
+        if stale_tail {
+            ctx.probe("append_left_stale_tail");
+            if prop != "C13" {
+                return Verdict::Skip("append left bytes after the end record (C13 / D12)".into());
+            }
+        }
         // independent judge
         let indep_res = {
             let g = store_f.lock().unwrap_or_else(|e| e.into_inner());
@@ -222,6 +231,9 @@ impl Scenario for Roundtrip {
                     return Verdict::Skip("violation owned by another property".into());
                 }
             }
+        }
+        if m.lenient {
+            return Verdict::Pass;
         }
         let rc = ReadCfg { policy: c.read.clone(), bufs: c.bufs.clone(), max_content_entries: 64 };
         match check_reader(&store_f, &m, &rc, ctx) {
